@@ -43,7 +43,8 @@ type Feat struct {
 	VisAfterInvoke float64
 	PErrFirst      float64
 	PReenter       float64
-	DecoIntroduce  bool // allow decorators for keys nobody provides (DESIGN §9 R3)
+	PThenProvide   float64 // probability that an invoked function registers a constructor from its body
+	DecoIntroduce  bool    // allow decorators for keys nobody provides (DESIGN §9 R3)
 }
 
 type genCtx struct {
@@ -57,7 +58,11 @@ type genCtx struct {
 	lastInvoke int
 	catUsed    map[int]bool
 	tmpl       func(g *genCtx)
+
+	pendingThen *thenReg
 }
+
+type thenReg struct{ scope, fn int }
 
 func (g *genCtx) newFunc(role Role) *Func {
 	g.h.Funcs = append(g.h.Funcs, Func{ID: len(g.h.Funcs), Role: role, Cat: -1})
@@ -694,7 +699,27 @@ func (g *genCtx) opInvoke(s int) {
 	} else {
 		f = g.genInvoke(s)
 	}
+	if !g.ft.Catalog && g.r.P(g.ft.PThenProvide) {
+		// the invoked function lazily registers a constructor before it returns
+		ps := g.pickScope()
+		fid := f.ID
+		ctor := g.genCtor(ps)
+		ctor.Callback, ctor.Info = false, false
+		f = &g.h.Funcs[fid] // genCtor may have grown the slice
+		f.ThenProvide, f.ThenScope = ctor.ID+1, ps
+		g.pendingThen = &thenReg{scope: ps, fn: ctor.ID}
+	}
 	g.addOp(Op{Kind: OpInvoke, Scope: s, Fn: f.ID})
+	if g.pendingThen != nil {
+		// the generator's own model follows optimistically (as if the Invoke
+		// reaches the function's body)
+		t := g.pendingThen
+		g.pendingThen = nil
+		if g.m.PredictProvide(t.scope, &g.h.Funcs[t.fn]) == PredOK {
+			g.m.AddCtor(t.scope, len(g.h.Ops)-1, &g.h.Funcs[t.fn])
+		}
+		return // no retry of an Invoke that registers something
+	}
 	for g.r.P(g.ft.PRetry) {
 		g.retryInvoke(s, f.ID)
 	}
@@ -811,6 +836,7 @@ func BaseFeat(r *Rng, thorough bool) Feat {
 	ft.Variadic = r.P(0.3)
 	ft.PVariadic = []float64{0.1, 0.1, 0.4}[r.Intn(3)]
 	ft.PWide = []float64{0, 0, 0.03}[r.Intn(3)]
+	ft.PThenProvide = []float64{0, 0, 0.06}[r.Intn(3)]
 	ft.Info = r.P(0.3)
 	ft.PErrFirst = []float64{0, 0.15, 0.3}[r.Intn(3)]
 	if r.P(0.2) {
